@@ -178,8 +178,8 @@ static std::string gen_tunnel(uint64_t seed, uint64_t idx, bool thorough) {
     // coarse clock sources are legal: CLOCK_REALTIME may tick in us or ms steps (several frames then share one timestamp)
     uint64_t clkgran = r.chance(0.25) ? (uint64_t[]){1000, 1000000, 4000000, 10000000}[r.below(4)] : 1;
     int stackfill = r.chance(0.6) ? 0xA5 : (int[]){0x00, 0x00, 0xFF, 0x01}[r.below(4)];
-    o.line(strf("cfg scen=tunnel argorder=%d stackfill=%d udp=%d fd=%d tscf=%d count=%d o0=%d ethpad=%d read0=%.2f clkgran=%llu sched=%s lat=%llu:%llu cost=%llu:%llu qcap=%zu tend=%llu rseed=0x%llx skew0=%lld skew1=%lld",
-                (int)r.coin(), stackfill, udp, fd, tscf, count, (int)r.chance(0.3), (int)(!udp && r.chance(0.4)), read0, (unsigned long long)clkgran, sched_str(r).c_str(), (unsigned long long)lat_lo, (unsigned long long)lat_hi,
+    o.line(strf("cfg scen=tunnel longnames=%d argorder=%d stackfill=%d udp=%d fd=%d tscf=%d count=%d o0=%d ethpad=%d read0=%.2f clkgran=%llu sched=%s lat=%llu:%llu cost=%llu:%llu qcap=%zu tend=%llu rseed=0x%llx skew0=%lld skew1=%lld",
+                (int)r.chance(0.3), (int)r.coin(), stackfill, udp, fd, tscf, count, (int)r.chance(0.3), (int)(!udp && r.chance(0.4)), read0, (unsigned long long)clkgran, sched_str(r).c_str(), (unsigned long long)lat_lo, (unsigned long long)lat_hi,
                 (unsigned long long)r.range(50, 500), (unsigned long long)r.range(500, 20000), qcap, (unsigned long long)tend,
                 (unsigned long long)r.next(), (long long)big_skew(r), (long long)big_skew(r)));
     for (auto &f : frames) o.line(f);
@@ -189,6 +189,19 @@ static std::string gen_tunnel(uint64_t seed, uint64_t idx, bool thorough) {
         for (int i = 0; i < k; i++) {
             size_t fi = long_run ? (size_t)r.range(4200, nframes - 1) : (size_t)r.below(frame_t.size());
             o.line(strf("restart t=%llu who=%s", (unsigned long long)(frame_t[std::min(fi, frame_t.size() - 1)] + r.range(0, scale)), (i == 0 ? r.chance(0.7) : false) ? "talker" : "listener"));
+        }
+    }
+    // the controller reports bus problems as error message frames (CAN_ERR_FLAG): delivered only to sockets that set an error filter,
+    // and never part of the traffic to be tunnelled
+    if (r.chance(0.08)) {
+        int k = (int)r.range(1, 4);
+        for (int i = 0; i < k; i++) {
+            CanRec ec;
+            ec.can_id = CAN_ERR_FLAG | (uint32_t[]){0x004, 0x040, 0x100, 0x002, 0x020}[r.below(5)];
+            ec.len = 8;
+            auto d = rnd_bytes(r, 8, 0);
+            memcpy(ec.data, d.data(), 8);
+            o.line(strf("can t=%llu id=0x%x fl=X len=8 data=%s", (unsigned long long)r.range(1000000, t), ec.can_id & CAN_ERR_MASK, sim::hexstr(ec.data, 8).c_str()));
         }
     }
     // the clock of one of the two machines is stepped (NTP/PTP correction, settimeofday): forwards or backwards, once or twice
@@ -224,6 +237,7 @@ static void cf_fields(Built &b, size_t o, bool tscf) {
     add_field(b, B + 8, 1); add_field(b, B + 9, 3);
     if (tscf) { add_field(b, B + 160, 16, true); add_field(b, B + 96, 32); add_field(b, B + 16, 8); }
     else { add_field(b, B + 13, 11, true); add_field(b, B + 24, 8); }
+    add_field(b, B + 32, 64);  // stream id (same place in both control formats)
 }
 
 static wire::Bytes cf_wrap(Rng &r, bool udp, bool tscf, const wire::Bytes &acf, uint64_t now_ns, size_t *cf_off) {
@@ -558,6 +572,13 @@ static std::string gen_c18(uint64_t seed, uint64_t idx, bool thorough) {
     else if (scen == "crfL" || scen == "crfT") { unit = 20000000ULL; warm = r.range(0, 1) * unit + r.range(1, 8) * 1000000ULL; fault = r.range(1, 2) * unit; quiet = unit + 4000000ULL; tail = 4000000ULL; }
     else if (scen == "cvf" || scen == "aaf") { unit = 500000; warm = r.range(0, 20) * unit + 1000000; fault = r.range(4, 60) * unit; quiet = 12 * unit; tail = 4700000000ULL; }
     else { unit = 200000; warm = r.range(0, 20) * unit + 1000000; fault = r.range(4, 80) * unit; quiet = 40 * unit; tail = 150000000ULL; }
+    // "long silence" flavour: the fault phase stretches over 11-25 s, so that hostile datagrams are seconds apart (per-stream tables,
+    // time-outs and "last seen" bookkeeping age in between)
+    if (!fault_free && (scen == "can" || scen == "cvf" || scen == "aaf") && r.chance(0.1)) fault += r.range(11, 25) * 1000000000ULL;
+    // "flood" flavour: one datagram is sent thousands of times at line rate (sequence number and timestamp advancing)
+    uint64_t flood_n = (!fault_free && r.chance(0.04)) ? r.range(2000, 20000) : 0, flood_dt = r.range(20000, 60000);
+    if (flood_n && (scen == "crfL" || scen == "crfT") && r.chance(0.7)) flood_n = r.range(17000, 24000);  // more than twice the nominal 8000 packets per second, for more than a second
+    if (flood_n) fault += flood_n * flood_dt;
     uint64_t t1 = warm, t2 = warm + fault, t3 = t2 + quiet;
     uint64_t drain = (scen == "crfL" || scen == "crfT") ? 8000000ULL : 60000000ULL;
     uint64_t tend = t3 + tail + drain + 5000000ULL;
@@ -649,6 +670,21 @@ static std::string gen_c18(uint64_t seed, uint64_t idx, bool thorough) {
                 auto d = synth(r, scen, udp, tscf, fd, t_origin + t, note);
                 o.line(strf("inj t=%llu data=%s note=first-%s", (unsigned long long)t, sim::hexstr(d.data(), d.size()).c_str(), note.c_str()));
             }
+        }
+        if (flood_n) {
+            std::string note;
+            uint64_t tf = r.range(t1, t2 - flood_n * flood_dt);
+            std::vector<uint8_t> d;
+            if (r.chance(0.7)) { Built bb = build_for(r, scen, udp, tscf, fd, t_origin + tf); d.assign(bb.d.begin(), bb.d.end()); }
+            else d = synth(r, scen, udp, tscf, fd, t_origin + tf, note);
+            size_t ho = udp ? 4 : 0;
+            bool control = scen == "can" || scen == "hello" || scen == "vss";
+            size_t seq_bit = ho * 8 + ((control && !tscf) ? 24 : 16);
+            // per copy: sequence number +1; where the format has a 32-bit timestamp: + one media clock period (or + the flood interval)
+            std::string step = strf("%zu:8:1", seq_bit);
+            if (!control || tscf) step += strf(",%zu:32:%llu", ho * 8 + 96, (unsigned long long)(r.coin() ? 125000 : flood_dt));
+            o.line(strf("injrep t=%llu dt=%llu n=%llu data=%s step=%s", (unsigned long long)tf, (unsigned long long)flood_dt, (unsigned long long)flood_n,
+                        sim::hexstr(d.data(), d.size()).c_str(), step.c_str()));
         }
         if (en_synth) {
             int n = (int)(r.chance(0.3) ? r.range(1, 3) : r.range(1, r.chance(thorough ? 0.4 : 0.2) ? (thorough ? 400 : 200) : 40));
